@@ -144,7 +144,50 @@ def monitorC19 (script : List Cmd) (iters : List Iter) : Option String :=
       some s!"no-query-at-once name={hexOfBytes n} ty={ty}"
     else if segs.any (fun seg => !gapsOk 1 (seg.map (·.2))) then
       some s!"query-more-often-than-backoff name={hexOfBytes n} ty={ty} sends={sends.take 12} starts={st}"
-    else none
+    else
+      -- On a silent network, without clock jumps and under the event-driven scheduler (the daemon
+      -- runs exactly when it asked to be woken) the schedule is exact: the queries of a search
+      -- started at t0 leave at t0, t0+1 s, t0+3 s, t0+7 s, ... (gaps capped at one hour) - each
+      -- search by itself, however many run at once - until it is stopped, replaced or timed out.
+      let punctual := !(script.any fun c => match c with
+        | .inject .. | .now _ | .ifaces .. | .register .. | .verify .. => true
+        | .other ("link" :: _) | .other ("dense" :: _) | .other ("drop" :: _) => true
+        | _ => false) && (script.filter fun c => match c with | .daemon _ => true | _ => false).length == 1
+      if !punctual then none else
+      let itArr := iters.toArray
+      let timeOfIter (k : Nat) : Nat := (itArr[k]?.map (·.now)).getD 0
+      let tEnd := script.foldl (fun acc c => match c with | .run u => max acc u | _ => acc) 0
+      -- iterations that end searches of this name: stop calls, a cache-only browse, shutdown; a
+      -- hostname search with a time-out is not judged at all
+      let hasTimeout := iters.any fun it => it.calls.any fun (i, _) =>
+        match script.toArray[i]? with
+        | some (.resolve _ _ h (some _)) => ty == 1 && lower h == n
+        | _ => false
+      if hasTimeout then none else
+      let endsAt : List Nat := iters.zipIdx.flatMap fun (it, k) =>
+        it.calls.filterMap fun (i, r) =>
+          if r != "ok" then none else
+          match script.toArray[i]? with
+          | some (.stopBrowse _ t') => if ty == 12 && lower t' == n then some k else none
+          | some (.browse _ _ t' true) => if ty == 12 && lower t' == n then some k else none
+          | some (.stopResolve _ h) => if ty == 1 && lower h == n then some k else none
+          | some (.shutdown ..) => some k
+          | _ => none
+      (st.zipIdx).findSome? fun ((k0, j) : Nat × Nat) =>
+        let k1 := (st[j + 1]?).getD (10 ^ 18)
+        let kStop := (endsAt.filter fun k => k ≥ k0).foldl min k1
+        let segEnd := if kStop < 10 ^ 18 then timeOfIter kStop else tEnd
+        let t0 := timeOfIter k0
+        let seg := (sends.filter fun ((k, _) : Nat × Nat) => k0 ≤ k && k < k1).map (·.2)
+        -- expected instants strictly before the end of the segment
+        let rec expected (fuel : Nat) (t delay : Nat) (acc : List Nat) : List Nat :=
+          match fuel with
+          | 0 => acc.reverse
+          | fuel + 1 => if t < segEnd then expected fuel (t + delay * 1000) (Sched.nextDelay delay) (t :: acc) else acc.reverse
+        let exp := expected 40 t0 1 []
+        match exp.find? fun e => !seg.contains e with
+        | some e => some s!"query-later-than-backoff-schedule name={hexOfBytes n} ty={ty} due={e} sends={seg.take 12}"
+        | none => none
 
 /-! ### shared helpers for the history monitors -/
 
